@@ -100,8 +100,9 @@ CHECKS = {
     text="Proof: C12_transitive_iff (TransitiveError iff some string is both key and value), C12_upgrade (for every record and "
          "selected new URI prefix: CURIE side untouched, every URI prefix kept, at most the new one gained, new one canonical "
          "iff unused or already a synonym of the record with the old canonical demoted to synonym, clash is a no-op), "
-         "C12_remap_records / C12_rewire_records (the constructor receives exactly the per-record images), C12_rewire_unknown. "
-         "Idempotence of rewire is checked on the implementation on every run (not a theorem).",
+         "C12_remap_records / C12_rewire_records (the constructor receives exactly the per-record images), C12_rewire_unknown, "
+         "C12_rewire_idem (rewiring the result of a successful rewiring with the same mapping succeeds and changes no record, for "
+         "every well-formed converter and every mapping). Idempotence is also checked on the implementation on every run.",
     design="§7 C12", technique="Lean 4 theorem (per-record upgrade law, transitivity iff) + Lean spec checker on implementation output + model/implementation correspondence"),
  "C13": dict(
     text="Proof: C13_pm (each listed pair expands accordingly and its URI prefix is registered for it), C13_priority (first URI "
